@@ -421,6 +421,16 @@ func (s *sim) checkTableAgainstModel(what string) {
 			return
 		}
 		st := getStatus(o)
+		// C14 at every quiescent point: an object reported Done must be in the target with exactly its current contents
+		if st.Kind == reconciler.StatusKindDone {
+			s.mu.Lock()
+			tp, inTarget := s.target[o.ID]
+			s.mu.Unlock()
+			if !inTarget || tp != o.Payload {
+				s.violate("conv", "done-but-target-differs", "%s: object id=%d payload=%d has status Done but the target holds payload %d (present=%v): the last successful Update was not made with its latest contents", what, o.ID, o.Payload, tp, inTarget)
+				return
+			}
+		}
 		if st.Kind == reconciler.StatusKindDone || st.Kind == reconciler.StatusKindError {
 			okAttempt := false
 			for _, a := range attempts {
